@@ -27,6 +27,14 @@ CHECKS = {
          "at any chunk): per-entry result = single verification, summary = conjunction, indices in range, fallback justified; R2: TLC-generated batch matrix (sizes x chunk positions x 20 badness kinds x "
          "options); R3: every real call replayed by TLC through the same state machine with the real constants, binding the hook events recorded at the code's linearization points, the result vector "
          "and the real single verifier; chunk equation predicted exactly from the logged randomisers"),
+ "C10": ("4 C10", "R1: the decoding algorithm (candidate root, two root checks, sqrt(-1), parity fix-up) == the lenient rule, exhaustively for every y and sign over 19 small fields with p = 5 mod 8 (TLC); "
+         "R3: decode / pack events of the real code validated by TLC in exact arithmetic (Edwards.tla): squareness by checked witness, decoded coordinates on the curve with the right parity, "
+         "canonical encoding from four internal representations incl. unreduced limbs; projection audited by bit-by-bit scalar multiplication in TLA+"),
+ "C11": ("4 C11", "R3: X25519 events (fast base-point path, generic path, array API; nibble-pattern / unclamped / boundary / random scalars; curve, twist, low-order, non-canonical points; bad lengths) "
+         "validated by TLC: result = RFC 7748 value, fast path = ladder, error iff bad length or all-zero result; the ladder itself is replayed step by step in TLA+ (Edwards.tla LadderOne) on a seeded sample; "
+         "R1: error/path table"),
+ "C12": ("4 C12", "R1: u = (1+y)/(1-y) lands on the Montgomery curve and the decode algorithm is exact, over small fields (TLC); R3: EdPublicKeyToX25519 on the structured decode inputs (flag by checked witness, "
+         "value by inverse witness, y = 1 -> 0), EdPrivateKeyToX25519 = clamp of SHA-512 prefix, commutation with X25519 on the base point; exact arithmetic in TLC"),
  "C13": ("4 C13", "R1: option table by TLC; R2: TLC enumerates the argument-shape matrix (function x lengths incl. nil x option classes x aliasing); R3: every shape replayed on the real API under recover "
          "with sentinel-filled spare capacity and overlapping arguments; outcome class and frame condition validated by TLC against Api.tla; malformed batch entries at every position through Batch.tla"),
  "C14": ("4 C14", "R3: GenerateKey on exact / long / chunked / short / failing / nil readers (bytes consumed, error propagation, coherence with NewKeyFromSeed and crypto/ed25519), accessor freshness by mutation, "
